@@ -56,6 +56,21 @@ def s_plain(exe, rng):
     return h, "rq 0 " + h.make_request(0, code=rng.choice([1, 4]), user=b"bob@example.org").hex()
 
 
+def s_wrapped(exe, rng):
+    """the identifier cursor of the server has reached the end of the table (255 requests went out): the next request is placed by
+    the second, wrap-around scan of sendrq"""
+    cfg = base_cfg(rng, False, False)
+    h = start(exe, rng, cfg)
+    names = [s["name"] for s in cfg.servers]
+    for n in names:
+        h.send("srvnext %s %d" % (n, rng.choice([256, 256, 255])))
+    if rng.random() < 0.5:      # ... with the last identifiers still taken
+        h.rq(0, h.make_request(0, code=1, user=b"al@example.org", pwd=False, extra=[], ident=9))
+        for n in names:
+            h.send("srvnext %s 255" % n)
+    return h, "rq 0 " + h.make_request(0, code=rng.choice([1, 4]), user=b"bob@example.org", ident=77).hex()
+
+
 def s_rewrites(exe, rng):
     cfg = base_cfg(rng, True, True)
     cfg.clients[0]["rwuser"] = W.MOD_POOL[0]
@@ -149,7 +164,7 @@ def s_udp(exe, rng):
     return h, "udpsend 0 " + h.make_request(0, code=1, user=b"bob@example.org", pwd=False, extra=[]).hex()
 
 
-SCENARIOS = [("eap-invalid", s_eap), ("plain", s_plain), ("rewrites", s_rewrites), ("pwd-chap-eap", s_pwd), ("local", s_local), ("dup", s_dup), ("reply", s_reply),
+SCENARIOS = [("eap-invalid", s_eap), ("wrapped", s_wrapped), ("plain", s_plain), ("rewrites", s_rewrites), ("pwd-chap-eap", s_pwd), ("local", s_local), ("dup", s_dup), ("reply", s_reply),
              ("reply-hidden", s_reply_hidden), ("writer", s_writer), ("udp", s_udp)]
 
 
